@@ -155,6 +155,12 @@ def has_fact(body, bb, roles, *alternatives):
     ks = facts_keys(body, bb, roles)
     # equality calls are printed with sorted operands: try both orders of a pattern
     alts = list(alternatives)
+    # `a == b` known true is `a != b` known false (and the other way round)
+    for a in alternatives:
+        m = re.match(r"^PartialEq::(eq|ne)\((.*)\)$", str(a[1]))
+        if m and a[0] in ("true", "false") and a[2] is None:
+            alts.append(("false" if a[0] == "true" else "true", "PartialEq::%s(%s)" % ("ne" if m.group(1) == "eq" else "eq", m.group(2)), None))
+    alternatives = list(alts)
     for a in alternatives:
         m = re.match(r"^PartialEq::(eq|ne)\((.*)\)$", str(a[1]))
         if m:
@@ -270,15 +276,37 @@ def loop_passes(body, entry, head, through):
 
 # ------------------------------------------------------------------------------------------------
 # loop exits
+def _result_locals(b):
+    """_0 and the locals whose value is moved into it as a whole (the result slot of an inlined helper)."""
+    got = getattr(b, "_result_locals", None)
+    if got is None:
+        got = {0}
+        changed = True
+        while changed:
+            changed = False
+            for blk in b.blocks:
+                for s in blk["stmts"]:
+                    if s["k"] == "assign" and s["place"]["l"] in got and not s["place"]["p"] and s["rv"]["k"] == "use":
+                        op = s["rv"]["op"]
+                        if op.get("k") in ("move", "copy") and not op["place"]["p"] and op["place"]["l"] not in got:
+                            got.add(op["place"]["l"])
+                            changed = True
+        b._result_locals = got
+    return got
+
+
 def _errish(b, bi):
     """Does block bi give the function's result an error-like value (Err/None literal or a propagated residual)?"""
     blk = b.blocks[bi]
+    res = _result_locals(b)
     for s in blk["stmts"]:
-        if s["k"] == "assign" and s["place"]["l"] == 0 and not s["place"]["p"]:
+        if s["k"] == "assign" and s["place"]["l"] in res and not s["place"]["p"]:
             rv = s["rv"]
+            if rv["k"] == "use" and rv["op"].get("k") in ("move", "copy") and rv["op"]["place"]["l"] in res:
+                continue
             return bool(rv["k"] == "agg" and rv.get("variant") in ("Err", "None"))
     t = blk["term"]
-    if t["k"] == "call" and t["dest"]["l"] == 0 and not t["dest"]["p"]:
+    if t["k"] == "call" and t["dest"]["l"] in res and not t["dest"]["p"]:
         return (t.get("callee") or "").endswith("from_residual")
     return None
 
@@ -420,3 +448,34 @@ def mut_borrow_users(body, local):
                     users.append((bj, q.nice(term.get("resolved") or term.get("callee"))))
         out.extend(users or [(bi, "?")])
     return out
+
+
+def given_up_for(body, bb, roles, reasons, depth=4):
+    """Is block `bb` (where a function answers None / gives up) reached only because one of the reviewed expressions
+    `reasons` (shape prefixes) turned out empty? Either a variant fact about such an expression holds at bb, or bb is a
+    join of several such tests (`let Some(Some(x)) = .. else`): then every edge into it comes from a switch on one of
+    them (followed backwards through blocks that do nothing but jump)."""
+    def reason(text):
+        t = str(text)
+        while True:
+            for pre in ("Try::branch(", "discr("):
+                if t.startswith(pre):
+                    t = t[len(pre):]
+                    break
+            else:
+                break
+        return t.startswith(tuple(reasons))
+    ks = [k for k in facts_keys(body, bb, roles) if k[0] in ("variant_in", "variant_not_in")]
+    if any(reason(k[1]) for k in ks):
+        return True
+    preds = [p for p in body.pred[bb] if not body.blocks[p]["cleanup"]]
+    if not preds or depth == 0:
+        return False
+    for p in preds:
+        t = body.blocks[p]["term"]
+        if t["k"] == "switch" and reason(q.shape(body.expr_of_operand(t["discr"]), roles)):
+            continue
+        if t["k"] == "goto" and not [s_ for s_ in body.blocks[p]["stmts"] if s_["k"] == "assign"] and given_up_for(body, p, roles, reasons, depth - 1):
+            continue
+        return False
+    return True
